@@ -4,6 +4,8 @@
 -/
 import PV.Scalar
 import PV.Props.C07Alg
+import Mathlib.Data.List.Forall2
+import PV.Model.Gls
 
 namespace PV
 
@@ -11,5 +13,73 @@ namespace PV
 theorem c07_dof_int (points priors params : Nat) (h : params ≤ points + priors) :
     ((points + priors - params : Nat) : Int) = (points : Int) - params + priors := by
   omega
+
+
+/-! ### the executable closed-form estimator (PV/Model/Gls.lean), run by the harness on every fit -/
+
+section executable
+open PV.Gls
+
+/-- whatever the checked solver returns solves the system exactly -/
+theorem c07_solveChecked_sound (A : Mat) (b x : List Rat) (h : solveChecked A b = some x) :
+    mulVec A x = b ∧ x.length = A.length := by
+  unfold solveChecked at h
+  split at h
+  · cases h
+  · split at h
+    · rename_i hc
+      injection h with h
+      subst h
+      simp only [Bool.and_eq_true, beq_iff_eq] at hc
+      exact ⟨hc.2, hc.1⟩
+    · cases h
+
+theorem mapM_solveChecked (N : Mat) : ∀ (cols : Mat) (sols : Mat),
+    cols.mapM (fun col => solveChecked N col) = some sols →
+    List.Forall₂ (fun col s => mulVec N s = col) cols sols := by
+  intro cols
+  induction cols with
+  | nil => intro sols h; simp at h; subst h; exact List.Forall₂.nil
+  | cons c cs ih =>
+    intro sols h
+    simp only [List.mapM_cons, bind, Option.bind] at h
+    cases hc : solveChecked N c with
+    | none => rw [hc] at h; cases h
+    | some s =>
+      rw [hc] at h
+      simp only at h
+      cases hcs : cs.mapM (fun col => solveChecked N col) with
+      | none => rw [hcs] at h; cases h
+      | some ss =>
+        rw [hcs] at h
+        simp only [pure, Option.some.injEq] at h
+        subst h
+        exact List.Forall₂.cons (c07_solveChecked_sound N c s hc).1 (ih ss hcs)
+
+/-- **C07 (the executable closed form).**  Whatever `gls` returns satisfies the normal equations exactly:
+    `(Aᵀ W A) p̂ = Aᵀ W y`, and every column `s_k` of the sensitivity matrix solves
+    `(Aᵀ W A) s_k = (Aᵀ W) e_k` - in exact rational arithmetic, for every design matrix, weight matrix
+    (diagonal or full) and data vector. -/
+theorem c07_gls_normal_equations (A W : Mat) (y p : List Rat) (S : Mat) (h : gls A W y = some (p, S)) :
+    mulVec (normalMat A W) p = mulVec (atw A W) y ∧
+    ∃ cols, S = transpose cols ∧
+      List.Forall₂ (fun col s => mulVec (normalMat A W) s = col) (transpose (atw A W)) cols := by
+  unfold gls at h
+  simp only at h
+  split at h
+  · cases h
+  · rename_i p' hp
+    split at h
+    · cases h
+    · rename_i cols hcols
+      simp only [Option.some.injEq, Prod.mk.injEq] at h
+      obtain ⟨rfl, rfl⟩ := h
+      exact ⟨(c07_solveChecked_sound _ _ _ hp).1, cols, rfl, mapM_solveChecked _ _ _ hcols⟩
+
+/-- non-vacuity: a straight-line fit through three points with unit weights -/
+example : gls [[1, 0], [1, 1], [1, 2]] [[1, 0, 0], [0, 1, 0], [0, 0, 1]] [1, 3, 5]
+    = some ([1, 2], [[5 / 6, 1 / 3, -1 / 6], [-1 / 2, 0, 1 / 2]]) := by decide +kernel
+
+end executable
 
 end PV
